@@ -220,6 +220,44 @@ theorem state_dict_hook_reapplied_counterexample :
   simp [roundTripSDHook, swapSDHook, applyHooks, hkDouble, pruneEmpty, leavesOf, nodesRenest, swap, swapEntries,
     swapEntriesWith, setTensor, setTensorNative, hW, Dict.get?, Dict.set, Option.join, Heap.upd, cellAt, Mod.cell]
 
+/-! ## a shared submodule given two different sub-tensordicts (recorded finding) -/
+
+/-- `lin` registered under two names of a container: `m = ModuleDict({'a': lin, 'b': lin})` -/
+def hShared : Heap := fun c =>
+  if c = 0 then { kids := [("a", some 1), ("b", some 1)] }
+  else if c = 1 then { params := [("weight", some ⟨1, true, false⟩), ("bias", some ⟨2, true, false⟩)] }
+  else {}
+
+/-- **shared_submodule_second_subtree_ignored_counterexample** (recorded finding `C13-shared-submodule-subtrees-differ`) —
+`TensorDict({'a': {'weight': X}, 'b': {'weight': X, 'bias': Y}}).to_module(m)`: the swap succeeds, the weight is
+installed, but the submodule is visited once (memo): the second sub-tensordict is never read and `Y` (object 11) is not
+installed — inside the block `lin.bias` is still the module's own object 2. (`swap_installs_direct` needs `ConsP`: one
+sub-tensordict per submodule.) -/
+theorem shared_submodule_second_subtree_ignored_counterexample :
+    (match swap hShared 0 [("a", .node [("weight", .leaf ⟨10, true, false⟩)]),
+                           ("b", .node [("weight", .leaf ⟨10, true, false⟩), ("bias", .leaf ⟨11, true, false⟩)])] with
+     | .ok (h', _) => some (cellAt h' 1 "weight", cellAt h' 1 "bias")
+     | .error _ => none)
+      = some (⟨some (some ⟨10, true, false⟩), none, none⟩, ⟨some (some ⟨2, true, false⟩), none, none⟩) := by
+  simp [swap, swapEntries, swapEntriesWith, setTensor, setTensorNative, hShared, Dict.get?, Dict.set, Option.join,
+    Heap.upd, cellAt, Mod.cell, Memo.find]
+
+/-- a module holding a TensorDictParams `extra` with a nested leaf: the registry names it `n.b` (a dotted parameter name) -/
+def hTdp : Heap := fun c =>
+  if c = 0 then { kids := [("extra", some 1)] }
+  else if c = 1 then { params := [("a", some ⟨3, true, false⟩), ("n.b", some ⟨4, true, false⟩)] }
+  else {}
+
+/-- **state_dict_tdparams_nested_names_counterexample** (recorded finding `C13-state-dict-tdparams-nested-names`) — the
+state-dict key `extra.n.b` is unflattened into `extra → n → b`; walking the TensorDictParams as an ordinary module
+(`use_state_dict=True` skips its TensorDictParams branch) looks for a submodule `n` of `extra`: `KeyError`. -/
+theorem state_dict_tdparams_nested_names_counterexample :
+    (match swapSD hTdp 0 [("extra", .node [("a", .leaf ⟨13, true, false⟩), ("n", .node [("b", .leaf ⟨14, true, false⟩)])])] with
+     | .error (e, _) => some e
+     | .ok _ => none) = some .key := by
+  simp [swapSD, pruneEmpty, leavesOf, nodesRenest, swap, swapEntries, swapEntriesWith, setTensor, setTensorNative, hTdp,
+    Dict.get?, Dict.set, Option.join, Heap.upd, Memo.find]
+
 /-! ## with-blocks -/
 
 /-- **blocks_restore** — any program of with-blocks, nested to any depth, with `raise` at any point of
